@@ -94,6 +94,7 @@ func (v *Verifier) VerifyFunction(fn *ssa.Function, fc *FuncContract) (root *Roo
 	root = v.newRoot(short, mode)
 	fx := &FnCtx{V: v, tc: v.tcs[mode], root: root, fn: fn, fc: fc, prefix: short,
 		vals: map[ssa.Value]Value{}, params: map[string]Value{}, topLevel: true, regions: map[*ssa.Alloc]*Region{}}
+	root.top = fx
 	defer func() {
 		if r := recover(); r != nil {
 			if ee, ok := r.(execError); ok {
